@@ -296,13 +296,17 @@ def run_pipeline(case):
     keys = []
     log = vc.StreamLog().install()
     for t in range(case["n"]):
-        fam = ["stripe-stress", "stripe-stress", "exact-chain", "buffer-stress", "exact-dag", "approx-tail", "exact-chain-big", "alias-stress", "stripe-resize", "stripe-resize"][int(rng.integers(0, 10))]
+        fam = ["stripe-stress", "stripe-stress", "exact-chain", "buffer-stress", "exact-dag", "approx-tail", "exact-chain-big", "alias-stress", "stripe-resize", "stripe-resize", "stripe-resize", "stripe-resize", "mixed-width"][int(rng.integers(0, 13))]
         net = netgen.make(fam, case["seed"] * 50 + t)
         cfg = cfggen.rand_cfg(rng)
         if rng.integers(0, 2):
             cfg["optimise"] = "Size"
         if rng.integers(0, 2):
             cfg["cache"] = int(rng.choice([2048, 4096, 8192, 16384, 32768]))
+        if fam == "stripe-resize":
+            # the stripe heights a cascade settles on depend on how much memory is left: sweep the pressure continuously
+            cfg["cache"] = int(np.exp(rng.uniform(np.log(4000), np.log(160000))))
+            cfg["optimise"] = "Performance" if rng.integers(0, 3) else "Size"
         d = os.path.join(case["sdir"], "p%d_%d" % (case["seed"], t))
         os.makedirs(d, exist_ok=True)
         mp = os.path.join(d, "n.tflite")
